@@ -21,31 +21,27 @@ from pathlib import Path
 from harness.translate import c03_tables
 
 ID = "C03"
-LEVEL_TEXT = ("Theorems by structural induction over every expression tree (all node types Griffe maps, all operators, unbounded depth and width), stated for "
-              "EVERY combination fx of the ten rendering repairs prepared for this property (the translator detects which ones the tree contains; fx_none = the "
-              "printer as it is in /repo today, fx_all = with all of them): flat iteration is the recursive expansion of one-layer iteration (parentheses "
-              "included) and str() is its concatenation; building with string parsing on equals building the tree in which exactly the strings selected by the "
-              "stated rule are replaced by their parsed code (flag on, not under a slice of a name chain that the module's imports resolve to typing.Literal "
-              "-- the resolution, i.e. canonical_path, is inside the model, names bound by the expression itself (comprehension targets, lambda parameters: "
-              "rule scope_ok) resolve to themselves --, not literal text of an f-string, not in a subscripted value, not in a lambda "
-              "default, content parses); every Name / attribute name of that tree appears, in order, as a name piece; and str(build e) equals a "
-              "precedence-aware reference printer (conversions, format specs and escapes included) character for character whenever e touches none of the "
-              "decidable gap families that the repairs present in the tree leave. For the printer with every repair the theorem holds with NO grouping, "
-              "f-string, lambda, generator, empty-tuple, yield-operand or integer-attribute hypothesis (C03_render_eq_reference_repaired: only await, a bare "
-              "yield in an expression position and non-f-string-shaped trees are excluded); for the printer without repairs each family is refuted by a "
-              "computed witness. What is stored does not depend on earlier builds (the model is a function; checked on sequences of modules in one process). "
-              "The reference printer is tied to CPython's parser, the model to Griffe by exhaustive depth-2 and random depth-6 differential runs on str, "
-              "class, flat and one-layer pieces, parent links, paths, canonical paths and modernize(); operator, node and precedence tables are regenerated "
-              "from expressions.py on every run.")
+LEVEL_TEXT = ("Theorems by structural induction over every expression tree (all node types Griffe maps, all operators, unbounded depth and width): flat iteration "
+              "is the recursive expansion of one-layer iteration (parentheses included) and str() is its concatenation; building with string parsing on equals "
+              "building the tree in which exactly the strings selected by the stated rule are replaced by their parsed code (flag on, not under a slice of a name "
+              "chain that the module's imports resolve to typing.Literal -- the resolution, i.e. canonical_path, is inside the model; names bound by the expression "
+              "itself (comprehension targets, lambda parameters: rule scope_ok) resolve to themselves --, not literal text of an f-string, not in a subscripted "
+              "value, not in a lambda default, content parses); every Name / attribute name of that tree appears, in order, as a name piece; and, for the tree as "
+              "it is now (all ten rendering repairs landed; the translator proves tree_fixes = fx_all), str(build e) equals a precedence-aware reference printer "
+              "(conversions, format specs and escapes included) character for character for EVERY well-formed tree except those containing await (no builder) or "
+              "a bare yield in a position that needs an expression: no grouping, f-string, lambda, generator, empty-tuple, yield-operand or integer-attribute "
+              "hypothesis is left (C03_render_eq_reference_repaired). All statements are proved for every combination of the repairs (the printer before them is "
+              "refuted by the old witnesses, kept as regression examples). What is stored does not depend on earlier builds (the model is a function; checked on "
+              "sequences of modules in one process). The reference printer is tied to CPython's parser, the model to Griffe by exhaustive depth-2 and random "
+              "depth-6 differential runs on str, class, flat and one-layer pieces, parent links, paths, canonical paths and modernize(); operator, node and "
+              "precedence tables are regenerated from expressions.py on every run.")
 LEVEL_NOTE = ("Trusted: Coq kernel, extraction, translator harness/translate/c03_tables.py (dict-literal shapes; one syntactic marker per repair, old and new "
-              "shape both checked, fails closed), the ast->pyexpr abstraction (incl. CPython's own parse of each string constant and the reading of the "
-              "module header's import statements into the name table; the harness's own Literal flags are cross-checked against the model's resolution), "
-              "CPython 3.12's parser/ast.unparse as authority (nested same-quote f-strings are 3.12 syntax). Lambda parameter alignment is taken in CPython "
-              "order (equality with get_parameters is C02's theorem). Constant spelling is repr (trusted; wf states that an int's repr is its digits). "
-              "The operand-precedence requirement of each slot of each Expr*.iterate is hand-modelled and tied by the exhaustive slot x child product, not "
-              "translated. as_dict is outside the model; ExprKeyword.canonical_path of a keyword passed to a called constant raises (F15) and is not compared. "
-              "The ten repairs are prepared as fix commits in a scratch clone and NOT landed: on /repo the model is fx_none and the findings stay known; "
-              "REQUIRED_FIXES pins the repairs once they land.")
+              "shape both checked, fails closed; a tree that lost a landed repair gets no tables, so the model stays the repaired printer), the ast->pyexpr "
+              "abstraction (incl. CPython's own parse of each string constant, the reading of the module header's import statements into the name table and the "
+              "local-name flags; the harness's Literal and local-name flags are cross-checked against the model's rules), CPython 3.12's parser/ast.unparse as "
+              "authority (nested same-quote f-strings are 3.12 syntax). Lambda parameter alignment is taken in CPython order (equality with get_parameters is "
+              "C02's theorem). Constant spelling is repr (trusted; wf states that an int's repr is its digits). The operand-precedence requirement of each slot "
+              "of each Expr*.iterate is hand-modelled and tied by the exhaustive slot x child product, not translated. as_dict is outside the model.")
 MODEL = ("Model.C03_run", "run_C03")
 COQ_TARGETS = ["Proofs/C03_expr.vo", "Proofs/C03_repaired.vo"]
 RULE = ("exhaustive: every (parent node type, operand slot) x every representative child (all node types, all 4+13+2+10 operators, equal-valued constants of "
